@@ -66,6 +66,7 @@ type interpreter struct {
 	clock      int64
 	uniques    map[string]*value
 	replayPos  int
+	hangBound  int
 	timers     map[*value]*timerState
 }
 
@@ -215,7 +216,7 @@ func visitInstr(fr *frame, instr ssa.Instruction) continuation {
 		fr.setv(instr, fr.get(instr.Tuple).(tuple)[instr.Index])
 
 	case *ssa.Slice:
-		fr.setv(instr, fr.slice(instr.X.Type(), fr.get(instr.X), fr.get(instr.Low), fr.get(instr.High), fr.get(instr.Max)))
+		fr.setv(instr, fr.slice(instr.X.Type(), fr.get(instr.X), fr.getIdx(instr.Low), fr.getIdx(instr.High), fr.getIdx(instr.Max)))
 
 	case *ssa.Return:
 		switch len(instr.Results) {
@@ -274,7 +275,7 @@ func visitInstr(fr *frame, instr ssa.Instruction) continuation {
 		in.spawn(fr, fn, args, instr.Pos())
 
 	case *ssa.MakeChan:
-		fr.setv(instr, in.makeChan(int(fr.concInt(fr.get(instr.Size))), instr.Type().Underlying().(*types.Chan).Elem()))
+		fr.setv(instr, in.makeChan(int(fr.concInt(fr.getIdx(instr.Size))), instr.Type().Underlying().(*types.Chan).Elem()))
 
 	case *ssa.Alloc:
 		var addr *value
@@ -299,8 +300,8 @@ func visitInstr(fr *frame, instr ssa.Instruction) continuation {
 		}
 
 	case *ssa.MakeSlice:
-		c := fr.concInt(fr.get(instr.Cap))
-		l := fr.concInt(fr.get(instr.Len))
+		c := fr.concInt(fr.getIdx(instr.Cap))
+		l := fr.concInt(fr.getIdx(instr.Len))
 		if l < 0 || c < l || c > 1<<26 {
 			in.rtPanic("makeslice: len out of range")
 		}
@@ -436,6 +437,19 @@ func visitInstr(fr *frame, instr ssa.Instruction) continuation {
 		panic(fmt.Sprintf("unexpected instruction: %T", instr))
 	}
 	return kNext
+}
+
+// getIdx reads an integer operand used as an index, length or capacity; a symbolic one is widened
+// to 64 bits according to its static type (an unsigned byte index must not be sign-extended).
+func (fr *frame) getIdx(v ssa.Value) value {
+	if v == nil {
+		return nil
+	}
+	x := fr.get(v)
+	if t, ok := x.(*Term); ok {
+		return fr.widenIndex(t, v.Type())
+	}
+	return x
 }
 
 // widenIndex extends a symbolic index to 64 bits according to its static type.
@@ -657,6 +671,9 @@ func runFrame(fr *frame) {
 				fr.visits = make(map[*ssa.BasicBlock]int)
 			}
 			fr.visits[fr.block]++
+			if in.hangBound > 0 && !in.initPhase && fr.visits[fr.block] > in.hangBound && (fr.info == nil || !fr.info.harness) {
+				panic(pathEnd{kind: endHang, msg: fmt.Sprintf("no progress: a loop in %s made more than %d iterations", fr.fn, in.hangBound)})
+			}
 			if !in.initPhase && fr.visits[fr.block] > in.cfg.MaxLoop {
 				panic(engineError{fmt.Sprintf("loop bound %d exceeded in %s block %d", in.cfg.MaxLoop, fr.fn, fr.block.Index)})
 			}
@@ -664,8 +681,11 @@ func runFrame(fr *frame) {
 		nonPhis := executePhis(fr)
 		for _, instr := range nonPhis {
 			in.steps++
-			if in.hb != nil {
-				in.curFrame, in.curPos = fr, instr.Pos()
+			if in.hb != nil || forkProfile {
+				in.curFrame = fr
+				if instr.Pos().IsValid() {
+					in.curPos = instr.Pos()
+				}
 			}
 			if in.steps > in.cfg.MaxSteps && !in.initPhase {
 				panic(engineError{fmt.Sprintf("path step bound %d exceeded in %s", in.cfg.MaxSteps, fr.fn)})
